@@ -241,7 +241,7 @@ pub enum Dec {
 pub fn real_decode(compressed: bool, frame: &[u8]) -> Dec {
     let f = frame.to_vec();
     let r = guard(move || {
-        let c = Codec::new(mode_of(compressed));
+        #[allow(unused_mut)] let mut c = Codec::new(mode_of(compressed));
         let mut buf = BytesMut::from(&f[..]);
         let r = c.decode(&mut buf);
         (r, buf.len())
